@@ -296,6 +296,17 @@ func (e *Engine) branch(c any) bool {
 	return take
 }
 
+// panicObligation: the current path (which is feasible) runs into an implicit panic.
+func (e *Engine) panicObligation(what string) {
+	e.nOblig++
+	if e.S.Check() == "sat" {
+		e.modelSummary()
+		e.lastCex.What = what
+		e.Cex = append(e.Cex, e.lastCex)
+	}
+	panic(pathEnd{what})
+}
+
 // obligation: cond must hold on all inputs reaching here; if violable, record and continue assuming it holds.
 func (e *Engine) oblige(cond string, what string) {
 	e.nOblig++
@@ -676,7 +687,10 @@ func (e *Engine) call(fn *ssa.Function, args []any, bind []any) any {
 					return t
 				}
 			case *ssa.Panic:
-				panic(pathEnd{fmt.Sprintf("EXPLICIT PANIC in %s; errors so far: %v", f.fn.Name(), e.trace)})
+				if isHarnessFn(f.fn) { // harness set-up failure: the path is not part of the claim, but it is counted
+					panic(pathEnd{fmt.Sprintf("HARNESS PANIC in %s; errors so far: %v", f.fn.Name(), e.trace)})
+				}
+				e.panicObligation("PANIC explicit panic in " + f.fn.String())
 			case *ssa.Go:
 				cc := x.Common()
 				args := make([]any, len(cc.Args))
@@ -762,7 +776,7 @@ func (e *Engine) eval(f *frame, v ssa.Value) any {
 	case *ssa.FieldAddr:
 		p := e.get(f, x.X)
 		if p == nil {
-			panic(pathEnd{"NILDEREF at " + f.fn.Prog.Fset.Position(x.Pos()).String()})
+			e.panicObligation("PANIC nil dereference at " + relPath(f.fn.Prog.Fset.Position(x.Pos()).String()))
 		}
 		pp := p.(Ptr)
 		s := (*pp.cells)[pp.idx].(StructV)
@@ -796,7 +810,7 @@ func (e *Engine) eval(f *frame, v ssa.Value) any {
 			return v
 		case token.MUL:
 			if a == nil {
-				panic(pathEnd{"NILDEREF at " + f.fn.Prog.Fset.Position(x.Pos()).String()})
+				e.panicObligation("PANIC nil dereference at " + relPath(f.fn.Prog.Fset.Position(x.Pos()).String()))
 			}
 			p := a.(Ptr)
 			return copyVal((*p.cells)[p.idx])
@@ -907,7 +921,7 @@ func (e *Engine) eval(f *frame, v ssa.Value) any {
 				return Tuple{IfaceV{}, false}
 			}
 			if !ok {
-				panic(pathEnd{"TYPEASSERT"})
+				e.panicObligation("PANIC failed type assertion at " + relPath(f.fn.Prog.Fset.Position(x.Pos()).String()))
 			}
 			return iv
 		}
@@ -918,7 +932,7 @@ func (e *Engine) eval(f *frame, v ssa.Value) any {
 			return Tuple{zero(x.AssertedType), false}
 		}
 		if !ok {
-			panic(pathEnd{"TYPEASSERT"})
+			e.panicObligation("PANIC failed type assertion at " + relPath(f.fn.Prog.Fset.Position(x.Pos()).String()))
 		}
 		return iv.V
 	}
@@ -942,13 +956,13 @@ func (e *Engine) concretize(v any) int64 {
 func (e *Engine) concretizeIndex(idx any, n int, f *frame, pos token.Pos) int {
 	if i, ok := idx.(int64); ok {
 		if i < 0 || int(i) >= n {
-			panic(pathEnd{"INDEX OOB"})
+			e.panicObligation("PANIC index out of range at " + relPath(f.fn.Prog.Fset.Position(pos).String()))
 		}
 		return int(i)
 	}
 	i := e.concretize(idx)
 	if i < 0 || int(i) >= n {
-		panic(pathEnd{"INDEX OOB"})
+		e.panicObligation("PANIC index out of range at " + relPath(f.fn.Prog.Fset.Position(pos).String()))
 	}
 	return int(i)
 }
@@ -977,7 +991,7 @@ func (e *Engine) sliceOp(f *frame, x *ssa.Slice) any {
 			}
 			return b.(string)[l:h]
 		}
-		e.oblige(cond, "PANIC slice bounds out of range at "+pos)
+		e.oblige(cond, "PANIC slice bounds out of range at "+relPath(pos))
 		return SymStr{fmt.Sprintf("(str.substr %s %s (- %s %s))", strE(b), intE(lo), intE(hi), intE(lo))}
 	case BytesV:
 		return e.bytesSlice(b, lo, hi, f.fn.Prog.Fset.Position(x.Pos()).String())
@@ -1005,10 +1019,17 @@ func (e *Engine) sliceOp(f *frame, x *ssa.Slice) any {
 	case SliceV:
 		h := b.len
 		if hi != nil {
-			h = int(hi.(int64))
+			h = int(e.concretize(hi))
 		}
-		l := int(lo.(int64))
-		return SliceV{b.arr, b.off + l, h - l, b.cap - l}
+		l := int(e.concretize(lo))
+		c := b.cap
+		if x.Max != nil {
+			c = int(e.concretize(e.get(f, x.Max)))
+		}
+		if l < 0 || l > h || h > c || c > b.cap {
+			e.panicObligation("PANIC slice bounds out of range at " + relPath(f.fn.Prog.Fset.Position(x.Pos()).String()))
+		}
+		return SliceV{b.arr, b.off + l, h - l, c - l}
 	}
 	panic(fmt.Sprintf("slice of %T", base))
 }
